@@ -241,7 +241,7 @@ struct Src {
 
     void publish(promise<PT> &&p) {
         prom.emplace(std::move(p));
-        S().name_obj(&prom->_owner, "owner");
+        S().name_obj(&prom->VN_promise__owner, "owner");
         published = true;
     }
     static void invoke(promise<PT> &p, const std::vector<std::string> &a, std::size_t at, bool &r) {
@@ -286,7 +286,7 @@ struct Src {
             return future<PT>::set_not_value();
         }
         return future<PT>([&](promise<PT> p) {
-            future<PT> *f = p._owner.raw();
+            future<PT> *f = p.VN_promise__owner.raw();
             if (!pre.empty()) {
                 bool r;
                 invoke(p, pre, 1, r);          // resolved before registration (nothing is tracked yet)
@@ -294,7 +294,7 @@ struct Src {
             } else {
                 publish(std::move(p));
             }
-            S().name_obj(&f->_awaiter, "slot");
+            S().name_obj(&f->VN_future_common__awaiter, "slot");
         });
     }
     void resolver_body(const std::vector<std::string> &a, std::size_t at, int tid) {
@@ -593,8 +593,8 @@ static void setup_simple(Runner<T, PT> &R, const std::string &adapter, const std
                 if (alloc == "stor") p.emplace(make_promise<T>(std::move(cb), R.stor));
                 else p.emplace(make_promise<T>(std::move(cb)));
             });
-            future<T> *f = p->_owner.raw();
-            S().name_obj(&f->_awaiter, "slot");
+            future<T> *f = p->VN_promise__owner.raw();
+            S().name_obj(&f->VN_future_common__awaiter, "slot");
             R.src.publish(std::move(*p));
         };
       }
@@ -642,7 +642,7 @@ static void setup_conv(Runner<From, PT> &R, std::shared_ptr<Conv> conv, bool hlp
     R.report = [&R, outer] {
         future<To> &f = **outer;
         if (!f.ready()) { R.env.log("outer pending"); return; }
-        R.env.log("outer " + observe_future(f, false) + " hv=" + (f._state != future_common::State::not_value ? "1" : "0"));
+        R.env.log("outer " + observe_future(f, false) + " hv=" + (f.VN_future_common__state != future_common::State::not_value ? "1" : "0"));
     };
     R.round_end = [outer] { outer->reset(); };
     R.cleanup = [conv, outer]() mutable { outer->reset(); conv.reset(); };
